@@ -8,6 +8,7 @@ import (
 	"fmt"
 	"net/http"
 	"net/http/httptest"
+	"net/url"
 	"sort"
 	"strconv"
 	"strings"
@@ -18,7 +19,7 @@ import (
 	_ "github.com/google/martian/v3/fifo"
 	_ "github.com/google/martian/v3/header"
 	"github.com/google/martian/v3/martianhttp"
-	_ "github.com/google/martian/v3/martianurl"
+	"github.com/google/martian/v3/martianurl"
 	_ "github.com/google/martian/v3/method"
 	"github.com/google/martian/v3/parse"
 	_ "github.com/google/martian/v3/priority"
@@ -183,7 +184,7 @@ type outcome struct {
 	stopped     bool // some group stopped at an error with children left
 }
 
-func interp(n *node, response bool, truth map[int]bool) outcome {
+func interp(n *node, response bool, truth func(*condSpec) bool) outcome {
 	var o outcome
 	if n == nil || !n.actsOn(response) {
 		return o
@@ -222,17 +223,45 @@ func interp(n *node, response bool, truth map[int]bool) outcome {
 			}
 		}
 	case 'C':
-		if truth[n.cond] {
-			core.Count("cond:" + condPool[n.cond].filter + ":true")
+		if truth(n.cond) {
+			core.Count("cond:" + n.cond.filter() + ":true")
 			return interp(n.kids[0], response, truth)
 		}
-		core.Count("cond:" + condPool[n.cond].filter + ":false")
+		core.Count("cond:" + n.cond.filter() + ":false")
 		return interp(n.els, response, truth)
 	}
 	return o
 }
 
 // ---- executing ops on the real code ----
+
+// matcherSays: which branch the REAL filter built from the condition's JSON takes on the message.
+func matcherSays(c *condSpec, m *message, response bool) bool {
+	register()
+	text := fmt.Sprintf(`{"%s": {%s"modifier": {"verif.Probe": {"label": 1, "caps": "b"}}, "else": {"verif.Probe": {"label": 0, "caps": "b"}}}}`, c.filter(), c.params())
+	r, err := parse.FromJSON([]byte(text))
+	if err != nil {
+		panic("matcherSays: " + err.Error() + ": " + text)
+	}
+	req, res := m.build()
+	var tr []string
+	if response {
+		r.ResponseModifier().ModifyResponse(res)
+		tr = res.Header[traceHeader]
+	} else {
+		r.RequestModifier().ModifyRequest(req)
+		tr = req.Header[traceHeader]
+	}
+	if len(tr) != 1 {
+		panic(fmt.Sprintf("matcherSays: trace %v", tr))
+	}
+	return tr[0] == "1"
+}
+
+func (m *message) describe() string {
+	return fmt.Sprintf("%s %s://%s%s?%s Host=%q CL=%d TE=%q hdr=%q cookies=%q | response CL=%d TE=%q hdr=%q cookies=%q",
+		m.method, m.scheme, m.host, m.path, m.rawQuery, m.reqHost, m.reqCL, m.reqTE, m.reqHdr, m.reqCk, m.resCL, m.resTE, m.resHdr, m.resCk)
+}
 
 type ex struct {
 	mod        *martianhttp.Modifier
@@ -333,7 +362,7 @@ func (e *ex) post(n *node) core.Result {
 	return core.Result{Impl: impl}
 }
 
-func (e *ex) run(kind string, m *msgSpec) core.Result {
+func (e *ex) run(kind string, m *message) core.Result {
 	response := kind == "s"
 	req, res := m.build()
 	var err error
@@ -358,11 +387,18 @@ func (e *ex) run(kind string, m *msgSpec) core.Result {
 		return fail("c12:foreign-error", "modifier returned something other than nil, a leaf error, or one MultiError of leaf errors (nesting deeper than one?): %T %v", err, err)
 	}
 	impl := "t=" + intsToken(tr) + " e=" + es
-	truth := map[int]bool{}
-	for _, c := range m.truths(response) {
-		truth[c] = true
+	abstain := false
+	exp := interp(e.active, response, func(c *condSpec) bool {
+		h, known := holdsSpec(c, m, response)
+		if !known { // outside the domain where the statement fixes the matcher's meaning: follow the code
+			abstain = true
+			return matcherSays(c, m, response)
+		}
+		return h
+	})
+	if abstain {
+		core.Count("run:oracle-followed-the-matcher-outside-its-domain")
 	}
-	exp := interp(e.active, response, truth)
 	core.Count("run:err-" + es[:1])
 	if len(tr) == 0 {
 		core.Count("run:trace-empty")
@@ -399,13 +435,68 @@ func (e *ex) Do(op string) core.Result {
 		if !ok {
 			return core.Result{Impl: "bad-op"}
 		}
-		return e.post(n)
-	case len(f) == 4 && f[0] == "run" && (f[1] == "q" || f[1] == "s"):
-		m, ok := parseMsg(f[2])
-		if !ok || intsToken(m.truths(f[1] == "s")) != f[3] {
+		r := e.post(n)
+		r.ModelOp = "post " + n.String()
+		return r
+	case len(f) == 4 && f[0] == "run" && (f[1] == "q" || f[1] == "s"): // legacy: 9-integer message, atoms ignored
+		m, ok := legacyMessage(f[2])
+		if !ok {
+			return core.Result{Impl: "bad-op"}
+		}
+		r := e.run(f[1], m)
+		r.ModelOp = "run " + f[1] + " " + m.token()
+		return r
+	case len(f) == 3 && f[0] == "run" && (f[1] == "q" || f[1] == "s"):
+		m, ok := parseMessage(f[2])
+		if !ok {
 			return core.Result{Impl: "bad-op"}
 		}
 		return e.run(f[1], m)
+	case len(f) == 4 && f[0] == "cond" && (f[1] == "q" || f[1] == "s"):
+		c, ok1 := parseCondTok(f[2])
+		m, ok2 := parseMessage(f[3])
+		if !ok1 || !ok2 {
+			return core.Result{Impl: "bad-op"}
+		}
+		got := matcherSays(c, m, f[1] == "s")
+		core.Count("condop:" + c.filter() + ":" + b01(got))
+		if want, known := holdsSpec(c, m, f[1] == "s"); known && want != got {
+			return core.Result{Impl: b01(got), Sig: "c12:cond-mismatch", Fail: fmt.Sprintf("%s {%s} on a %s of the exchange %s: the filter took its %s branch, the condition %s",
+				c.filter(), c.params(), map[string]string{"q": "request", "s": "response"}[f[1]], m.describe(), map[bool]string{true: "modifier", false: "else"}[got],
+				map[bool]string{true: "holds", false: "does not hold"}[want])}
+		}
+		return core.Result{Impl: b01(got), ModelOp: "cond " + f[1] + " " + c.token() + " " + f[3]}
+	case len(f) == 3 && f[0] == "matchhost":
+		h, ok1 := core.Unhex(f[1])
+		p, ok2 := core.Unhex(f[2])
+		if !ok1 || !ok2 {
+			return core.Result{Impl: "bad-op"}
+		}
+		got := martianurl.MatchHost(string(h), string(p))
+		core.Count("matchhost:" + b01(got))
+		if want, known := specHost(string(h), string(p)); known && want != got {
+			return core.Result{Impl: b01(got), Sig: "c12:matchhost-mismatch", Fail: fmt.Sprintf("MatchHost(%q, %q) = %v", h, p, got)}
+		}
+		return core.Result{Impl: b01(got)}
+	case len(f) == 2 && f[0] == "query":
+		q, ok := core.Unhex(f[1])
+		if !ok {
+			return core.Result{Impl: "bad-op"}
+		}
+		vals, _ := url.ParseQuery(string(q))
+		var keys []string
+		for k := range vals {
+			keys = append(keys, k)
+		}
+		sort.Strings(keys)
+		var ps [][2]string
+		for _, k := range keys {
+			for _, v := range vals[k] {
+				ps = append(ps, [2]string{k, v})
+			}
+		}
+		core.Count("query:pairs-" + strconv.Itoa(len(ps)))
+		return core.Result{Impl: pairsTok(ps)}
 	}
 	return core.Result{Impl: "bad-op"}
 }
